@@ -332,3 +332,43 @@ func (m *idlModel) accMethod(c *ssa.Call) string {
 	}
 	return f.Name()
 }
+
+// keywordTest: f compares the result of a keyword token reader (a token reader whose tokens start with and consist of
+// lower-case letters only... the first-byte set is exactly a-z) with a non-empty literal.
+func (m *idlModel) keywordTest(f Fact) bool {
+	_, lit, ok := strConstEq(f)
+	if !ok || lit == "" {
+		return false
+	}
+	rd, ok := m.tokenEq([]Fact{f}, lit)
+	if !ok {
+		return false
+	}
+	tc := m.tokens[rd]
+	return tc != nil && tc.First.equal(rangeSet('a', 'z'))
+}
+
+// memberNodeOf: the member node (an Alloc of *Alias, *Method or *Error in fn) whose Name member is set to the value
+// with term nameT; nil if there is none or more than one.
+func (m *idlModel) memberNodeOf(fn *ssa.Function, nameT string) *ssa.Alloc {
+	var out *ssa.Alloc
+	for _, b := range fn.Blocks {
+		for _, in := range b.Instrs {
+			al, ok := in.(*ssa.Alloc)
+			if !ok {
+				continue
+			}
+			if !isNamed(al.Type(), pkgIDL, "Alias") && !isNamed(al.Type(), pkgIDL, "Method") && !isNamed(al.Type(), pkgIDL, "Error") {
+				continue
+			}
+			vals := fieldStores(al)["Name"]
+			if len(vals) == 1 && m.T.T(vals[0]) == nameT {
+				if out != nil {
+					return nil
+				}
+				out = al
+			}
+		}
+	}
+	return out
+}
